@@ -140,13 +140,6 @@ Proof.
   rewrite dropN_app_exact, takeN_app_exact. destruct f; reflexivity.
 Qed.
 
-(* the topic presence table of this tree: exactly the discovery and MPC message types carry a topic *)
-Lemma topic_table_pinned ty : has_topic ty = true <-> ty = msg_type_discovery \/ ty = msg_type_mpc.
-Proof.
-  unfold has_topic, topic_types, msg_type_discovery, msg_type_mpc. cbn [existsb].
-  rewrite orb_false_r, orb_true_iff, !N.eqb_eq. tauto.
-Qed.
-
 (* ---- streams ---------------------------------------------------------------------------- *)
 
 Lemma decode_fuel_frame f e s' fuel :
